@@ -89,6 +89,7 @@ void World::begin(uint64_t sched_salt, RunResult *r, bool keep_log, bool echo) {
   rewrite = nullptr;
   read_cuts.clear();
   write_cuts.clear();
+  write_stalls.clear();
   deliver_chunks.clear();
   read_cut_source = nullptr;
   default_read_cut = 0;
@@ -147,6 +148,13 @@ void World::begin(uint64_t sched_salt, RunResult *r, bool keep_log, bool echo) {
     }
     return default_read_cut;
   };
+  h.write_blocked = [this](simk::Stream *s, int side) -> bool {
+    auto it = write_stalls.find({s->id, side});
+    if (it == write_stalls.end()) return false;
+    for (auto &win : it->second)
+      if (now() >= win.first && now() < win.second) { count("fault.write_stalled"); return true; }
+    return false;
+  };
   h.write_cut = [this](simk::Stream *s, int side, size_t) -> size_t {
     auto it = write_cuts.find({s->id, side});
     if (it != write_cuts.end() && !it->second.empty()) {
@@ -178,6 +186,11 @@ void World::end() {
   }
   simk::K().hooks = simk::NetHooks();
   g_world = nullptr;
+}
+
+void World::stall_writes(uint64_t stream, int side, uint64_t from_ns, uint64_t until_ns) {
+  write_stalls[{stream, side}].push_back({from_ns, until_ns});
+  at_ns(until_ns, []() {}, -1);     // the socket becomes writable again: an event at that instant lets the loop look
 }
 
 int World::add_node(coap_context_t *ctx) {
